@@ -68,6 +68,7 @@ public:
      * @param TheMatchPattern The match pattern
      * @param thePatternString the pattern string
      * @param thePriority The priority for the match pattern.
+     * @param theAlternative The index of the alternative of the match pattern this instance stands for.
      */
     XalanMatchPatternData(
             MemoryManager&      theManager,
@@ -76,13 +77,15 @@ public:
             const XalanDOMString&   theTargetString,
             const XPath&            theMatchPattern,
             const XalanDOMString&   thePatternString,
-            eMatchScore             thePriority) :
+            eMatchScore             thePriority,
+            size_type               theAlternative = 0) :
         m_template(&theTemplate),
         m_position(thePosition),
         m_targetString(theTargetString, theManager),
         m_matchPattern(&theMatchPattern),
         m_pattern(&thePatternString),
-        m_priority(thePriority)
+        m_priority(thePriority),
+        m_alternative(theAlternative)
     {
     }
 
@@ -151,6 +154,20 @@ public:
         return m_priority;
     }
 
+    /**
+     * Retrieve the index of the alternative of the match pattern
+     * that this instance was created for.  A template whose pattern
+     * has several alternatives separated by '|' is treated as a set
+     * of template rules, one for each alternative.
+     *
+     * @return The index of the alternative
+     */
+    size_type
+    getAlternative() const
+    {
+        return m_alternative;
+    }
+
     double
     getPriorityOrDefault() const;
 
@@ -170,6 +187,8 @@ private:
     const XalanDOMString*   m_pattern;
 
     eMatchScore             m_priority;
+
+    size_type               m_alternative;
 };
 
 
